@@ -137,6 +137,17 @@ Definition CO (s2 : state) (res : state * bool) (w : id) : Prop :=
                   st_chaintx s3 = st_chaintx s2 /\ st_seq s3 = st_seq s2) /\
   (inv = true -> decreased s2 s3).
 
+Lemma CO_nil s2 w : AInv s2 -> st_tip s2 = w -> CO s2 (s2, false) w.
+Proof.
+  intros HA E. unfold CO. split; [assumption|]. split; [reflexivity|]. split; [auto|].
+  split; [intros _; split; [assumption|]; split; [reflexivity|]; split; [reflexivity|]; split; reflexivity|discriminate].
+Qed.
+Lemma CO_true s2 s' w w' : CO s2 (s', true) w' -> CO s2 (s', true) w.
+Proof.
+  unfold CO. intros [H1 [H2 [H3 [_ H5]]]]. split; [assumption|]. split; [assumption|]. split; [assumption|].
+  split; [discriminate|assumption].
+Qed.
+
 Section Connect.
 Variable s2 : state.
 Variable top : id.
@@ -151,11 +162,11 @@ Proof.
   intros w Hk. pattern w. revert w Hk. apply (path_ind parent_of proof_of kind_of proof_pos s2 HI2).
   - intros Hf _ _. apply (ipath_genesis_only _ _ _ proof_pos _ HI2) in Hf.
     rewrite (ipath_genesis _ _ _ proof_pos _ HI2). cbn [path_above]. rewrite Hf, Z.eqb_refl. cbn [rev connect_path].
-    unfold CO. repeat split; auto; discriminate.
+    apply CO_nil; assumption.
   - intros w Hk Ng IH Hf Htop Hclean.
     destruct (ipath_unfold _ _ _ proof_pos _ HI2 _ Hk Ng) as [Hkp [Hpath _]].
     rewrite Hpath. cbn [path_above]. destruct (Z.eqb_spec w (st_tip s2)) as [E|N].
-    { cbn [rev connect_path]. unfold CO. repeat split; auto; discriminate. }
+    { cbn [rev connect_path]. apply CO_nil; [assumption|congruence]. }
     cbn [rev]. rewrite connect_path_app.
     assert (Hf' : In (st_tip s2) (path s2 (parent_of w))).
     { rewrite Hpath in Hf. destruct Hf as [E|Hf]; [congruence|assumption]. }
@@ -166,9 +177,9 @@ Proof.
     { intros y Hy. apply Hclean. rewrite Hpath. cbn [path_above]. destruct (Z.eqb_spec w (st_tip s2)); [contradiction|]. right. assumption. }
     specialize (IH Hf' Htop' Hclean').
     destruct (connect_path kind_of s2 (rev (path_above (path s2 (parent_of w)) (st_tip s2))) top) as [s' inv'].
-    destruct IH as [HA' [Ei [Hcs [Hfalse Htrue]]]].
     destruct inv'.
-    { unfold CO. repeat split; auto; discriminate. }
+    { eapply CO_true. exact IH. }
+    destruct IH as [HA' [Ei [Hcs [Hfalse Htrue]]]].
     destruct (Hfalse eq_refl) as [Et [Ef [Ed [Ec Es]]]].
     assert (Hw : st_data s2 w = true /\ st_chaintx s2 w = true /\ st_failed s2 w = false).
     { apply Hclean. rewrite Hpath. cbn [path_above]. destruct (Z.eqb_spec w (st_tip s2)); [contradiction|]. left. reflexivity. }
@@ -233,7 +244,9 @@ Proof.
 Qed.
 
 Lemma abc_loop_good fuel : forall s, AInv s -> (unfailed s < fuel)%nat ->
-  Good (activate_best_chain_loop parent_of kind_of s fuel).
+  Good (activate_best_chain_loop parent_of kind_of s fuel) /\
+  (forall x, st_failed s x = true -> st_failed (activate_best_chain_loop parent_of kind_of s fuel) x = true) /\
+  st_index (activate_best_chain_loop parent_of kind_of s fuel) = st_index s.
 Proof.
   induction fuel as [|f IH]; intros s HA Hfuel; [lia|].
   destruct HA as [HI [m [Hm [Hmv HL]]]].
@@ -257,6 +270,7 @@ Proof.
   change (st_tip s1) with (st_tip s).
   destruct (Z.eqb_spec w (st_tip s)) as [Ew|Nw].
   { (* nothing to do *)
+    split; [|split; [auto|reflexivity]].
     split; [assumption|]. split.
     - intros x Hx Hwx. apply HL1; [assumption|]. change (worse s x (st_tip s) = false) in Hwx.
       change (worse s x m = false). rewrite <- Ew in Hwx. eapply nworse_trans; [|exact Hwx]. apply Hbest. assumption.
@@ -274,6 +288,7 @@ Proof.
     - apply (ipath_known _ _ _ proof_pos _ HI) in Hft. assumption.
     - intros x Hx. apply i_chain. ssimpl. eapply (ipath_trans _ _ _ proof_pos _ HI); eassumption.
     - intros c Hc. destruct (i_cands c Hc) as [H1 [H2 H3]]. ssimpl. split; [assumption|]. split; [assumption|].
+      change (worse s c fork = false). change (worse s c (st_tip s) = false) in H3.
       destruct (Z.eq_dec fork (st_tip s)) as [->|N]; [assumption|].
       assert (worse s fork (st_tip s) = true) by (apply worse_work_lt; apply (ipath_work _ _ _ proof_pos _ HI); assumption).
       destruct (worse s c fork) eqn:E; [|reflexivity].
@@ -284,7 +299,6 @@ Proof.
   { intros y Hy. change (In y (path_above (path s w) fork)) in Hy.
     pose proof (Habove _ Hy) as Hnc. change (in_chain s y = false) in Hnc.
     destruct (above_desc parent_of proof_of kind_of proof_pos s HI fork w Hkw Hfw y Hy) as [_ [_ Hyw]].
-    rewrite fmwc_walk_set_cands in Hwalk.
     destruct (walk_none parent_of proof_of kind_of proof_pos s HI w Hkw Hwalk y Hyw) as [H|[H1 H2]]; [congruence|].
     destruct (inv_chaintx_anc _ _ _ proof_pos s HI _ _ Hyw Hcw) as [H3 _]. auto. }
   pose proof (connect_spec s2 w HA2 w Hkw Hfw (ipath_self _ _ _ proof_pos _ HI _ Hkw) Hclean) as HCO.
@@ -293,13 +307,18 @@ Proof.
   destruct HCO as [HA3 [Ei [Hcs [Hfalse Htrue]]]].
   destruct inv.
   - (* a block on the way was invalid: another round *)
-    apply IH; [assumption|]. pose proof (unfailed_decreased s2 s3 Ei (Htrue eq_refl)). change (unfailed s2) with (unfailed s) in H. lia.
+    assert (Hlt : (unfailed s3 < f)%nat).
+    { pose proof (unfailed_decreased s2 s3 Ei (Htrue eq_refl)). change (unfailed s2) with (unfailed s) in H. lia. }
+    destruct (IH s3 HA3 Hlt) as [G1 [G2 G3]]. split; [assumption|]. split.
+    + intros x Hx. apply G2. destruct (Htrue eq_refl) as [Hmono _]. apply Hmono. exact Hx.
+    + rewrite G3. exact Ei.
   - (* w is the new tip *)
     destruct (Hfalse eq_refl) as [Et [Ef [Ed [Ec Es]]]].
     destruct HA3 as [HI3 [m3 [Hm3 [_ HL3]]]].
-    assert (Ews : forall a c, worse s3 a c = worse s a c) by (intros a c; apply (worse_same s3 s2); assumption).
+    assert (Ews : forall a c, worse s3 a c = worse s a c) by (intros a c; rewrite (worse_same s2 s3) by assumption; reflexivity).
     assert (Hm3w : worse s w m3 = false).
     { apply Hbest. apply Hcs. apply HL3; [assumption|apply worse_irrefl]. }
+    split; [|split; [intros x Hx; rewrite Ef; exact Hx|exact Ei]].
     split; [assumption|]. split.
     + intros x Hx Hwx. apply HL3; [assumption|]. rewrite Et in Hwx. rewrite Ews in *.
       eapply nworse_trans; eassumption.
@@ -307,12 +326,18 @@ Proof.
       apply (worse_antisym s); [assumption|]. apply Hbest. apply Hcs. assumption.
 Qed.
 
-Theorem abc_good s : AInv s -> Good (activate_best_chain parent_of kind_of s).
+Theorem abc_good_full s : AInv s ->
+  Good (activate_best_chain parent_of kind_of s) /\
+  (forall x, st_failed s x = true -> st_failed (activate_best_chain parent_of kind_of s) x = true) /\
+  st_index (activate_best_chain parent_of kind_of s) = st_index s.
 Proof.
   intros HA. unfold activate_best_chain. apply abc_loop_good; [assumption|].
   unfold unfailed, ids. pose proof (filter_length_le (fun x => negb (st_failed s x)) (map h_id (st_index s))).
   rewrite map_length in H. lia.
 Qed.
+
+Theorem abc_good s : AInv s -> Good (activate_best_chain parent_of kind_of s).
+Proof. intros HA. apply (abc_good_full s HA). Qed.
 
 (* in a state where the tip is already the only candidate ActivateBestChain changes nothing at all *)
 Theorem abc_id s : Good s -> activate_best_chain parent_of kind_of s = s.
